@@ -3,7 +3,7 @@ import hashlib, json, os, re, subprocess, sys, time
 
 VERIF = os.path.dirname(os.path.dirname(os.path.abspath(__file__)))
 REPO = os.environ.get("VERIF_REPO", "/repo")
-BUILD = os.path.join(VERIF, "build")
+BUILD = os.environ.get("VERIF_BUILD", os.path.join(VERIF, "build"))
 VX = os.path.join(VERIF, "vx", "target", "release", "vx")
 
 DEFAULT_RENAMES = ("enumerate,chain,cloned,fold,any,sum,unzip,interleave,tuples,to_le_bytes,flat_map,by_ref,"
